@@ -11,6 +11,18 @@ E2 = "stateless model checking: exhaustive DFS of the choice tree of RNG answers
 E3 = "explicit-state BFS over operation histories of the real object, reference-model comparison in every state"
 
 CHECKS = {
+    "C13": dict(
+        built=True,
+        category="exploration",
+        engine="E1",
+        technique=E1 + "; all small weighted graphs incl. duplicate edges/self loops, oracle = minimum over all acyclic edge subsets",
+        text="All graphs on <=4 nodes over weights {absent,-1,0,1,2}, all graphs on 5 nodes over {absent,1,2}, self-loop and "
+        "ordered duplicate-edge families; kruskal in 4 edge orders x allow_forest, prim from every start node and with string "
+        "labels; tree-ness, membership of returned edges in the input multiset, objective = sum = exact minimum, and the "
+        "INFEASIBLE / FEASIBLE-forest verdicts are checked in every case.",
+        note="Trusts: brute-force forest enumeration. Bound: n <= 5, integer weights.",
+        ref="2/C13",
+    ),
     "C08": dict(
         built=True,
         category="exploration",
